@@ -11,7 +11,7 @@ PID = "C14"
 LEVEL = "exploration"
 RULE = ("Hypothesis-generated force fields whose blocks carry independent exclusion distances 0-4, combined in "
         "linear/tree/ring residue graphs with bond/constraint links, block- and link-level [exclusions] and "
-        "[pairs]; judged from the written .itp alone: bond graph = bonds+constraints of the file, "
+        "[pairs], plus a flavour with multi-residue (from_itp) blocks whose residues carry the residue name of a regular block; judged from the written .itp alone: bond graph = bonds+constraints of the file, "
         "effective(a,b) = dist<=nrexcl(file) or listed in [exclusions]; required(a,b) = dist<=max(nrexcl of "
         "the two atoms' blocks) or explicitly excluded by a block/link of the spec; all atom pairs compared. "
         "non-trivial = >=2 distinct block nrexcl in the molecule and >=1 pair whose distance lies between "
